@@ -2,9 +2,11 @@
 (* C06 — the canvas cache is invisible.  Contract operators (no variables).                  *)
 (*                                                                                           *)
 (* Part 1 is the contract in the abstract vocabulary of the design model CanvasCache.tla:     *)
-(* a rendering of widget w is a function of the "stamps" (content version of a leaf, focus    *)
-(* position of a container) of every widget at or below w, and a canvas answered from the     *)
-(* cache must record exactly the stamps a fresh rendering would record now.                   *)
+(* a rendering of widget w at a size is a function of the "stamps" (content version of a     *)
+(* leaf, focus position of a container, and for widgets with layout state the layout a fresh   *)
+(* rendering at that size resolves: the displayed scroll offset, the version the remembered    *)
+(* layout was worked out from) of every widget at or below w, and a canvas answered from the   *)
+(* cache must record exactly the stamps a fresh rendering at its size would record now.        *)
 (* Part 2 is the same contract in the vocabulary of recorded executions of the real code:     *)
 (* a rendering is <<text rows, attribute rows, cursor>> (sequences of integers) and every     *)
 (* sentence of the property is one clause of RenderVerdict / RowsVerdict / HeldVerdict.       *)
@@ -66,6 +68,15 @@ RowsVerdict(e) ==
   IF e.c_exc # e.f_exc THEN "rows_never_raises"
   ELSE IF e.c_exc # "" THEN "-"
   ELSE IF e.c_rows # e.f_rows THEN "rows_equal_fresh"
+  ELSE "-"
+
+\* a size-dependent question that changes nothing (get_cursor_coords(size), get_pref_col(size), ListBox.ends_visible(size)):
+\* the answer of the live tree (rows of sub-widgets may be read from cached canvases, stored layout state is resolved
+\* for this size) against the answer of the same tree with the caches emptied first
+QueryVerdict(e) ==
+  IF e.c_exc # e.f_exc THEN "query_never_raises"
+  ELSE IF e.c_exc # "" THEN "-"
+  ELSE IF e.c_val # e.f_val THEN "query_equals_fresh"
   ELSE "-"
 
 \* held: the renderings read from the canvases when the cache handed them out (in hand-out order);
